@@ -28,6 +28,9 @@ pub enum AstRulePatternPart
 {
     Whitespace,
     Exact(char),
+    /// A character that must immediately follow the previous one,
+    /// being part of the same token in the pattern.
+    ExactGlued(char),
     Parameter(AstRuleParameter),
 }
 
@@ -142,9 +145,15 @@ fn parse_rule(
         
         else if tk.kind.is_allowed_pattern_token()
         {
-            for c in walker.get_span_excerpt(tk.span).chars()
+            for (i, c) in walker.get_span_excerpt(tk.span).chars().enumerate()
             {
-                pattern.push(AstRulePatternPart::Exact(c.to_ascii_lowercase()));
+                let c = c.to_ascii_lowercase();
+
+                pattern.push(
+                    if i == 0
+                        { AstRulePatternPart::Exact(c) }
+                    else
+                        { AstRulePatternPart::ExactGlued(c) });
             }
         }
 
